@@ -43,6 +43,15 @@ pub struct Profile {
     /// network
     pub drop_pm: u64,
     pub dup_pm: u64,
+    /// per-run probability that the election adversary is active (late copies of vote requests, shielding of
+    /// candidates of a contested term from leader traffic and from their own clock)
+    pub election_adversary_pm: u64,
+    /// a membership proposal is followed by a second one a few ms later (racing operators)
+    pub conf_burst_pm: u64,
+    /// per-node probability of a slow state machine (applies lag far behind commits)
+    pub slow_apply_pm: u64,
+    /// per-run probability of a membership-heavy workload (5x the membership weight, bursts, slow appliers)
+    pub conf_heavy_pm: u64,
     pub slow_msg_pm: u64,
     pub fifo_pm: u64,
     /// client op weights
@@ -107,6 +116,10 @@ impl Profile {
             force_ready_pm: 30,
             drop_pm: 30,
             dup_pm: 30,
+            election_adversary_pm: 0,
+            conf_burst_pm: 150,
+            slow_apply_pm: 100,
+            conf_heavy_pm: 300,
             slow_msg_pm: 60,
             fifo_pm: 300,
             w_propose: 60,
@@ -157,6 +170,7 @@ enum Ev {
     ClearStorageFault(NodeId),
     Decommission(NodeId),
     Notify(NodeId),
+    ConfFollowUp(NodeId),
 }
 
 struct NodeDrv {
@@ -170,6 +184,7 @@ struct NodeDrv {
     eager_compact: bool,
     not_member_since: Option<u64>,
     slow_disk: bool,
+    slow_apply: bool,
 }
 
 pub struct RunOutcome {
@@ -194,6 +209,12 @@ pub struct Driver<'a> {
     next_id: u64,
     drop_pm: u64,
     dup_pm: u64,
+    adversary: bool,
+    conf_heavy: bool,
+    /// candidate -> (term, shielded until)
+    shield: BTreeMap<NodeId, (u64, u64)>,
+    /// leader of a contested term -> its outgoing traffic is held until
+    muted: BTreeMap<NodeId, u64>,
     fifo: bool,
     link_last: BTreeMap<(NodeId, NodeId), u64>,
     mix_modes: bool,
@@ -303,11 +324,14 @@ impl<'a> Driver<'a> {
                     eager_compact: rng.pm(150),
                     not_member_since: None,
                     slow_disk: rng.pm(p.slow_disk_pm),
+                    slow_apply: rng.pm(p.slow_apply_pm),
                 },
             );
         }
         let drop_pm = if rng.pm(500) { p.drop_pm } else { 0 };
         let dup_pm = if rng.pm(500) { p.dup_pm } else { 0 };
+        let adversary = p.election_adversary_pm > 0 && rng.pm(p.election_adversary_pm);
+        let conf_heavy = rng.pm(p.conf_heavy_pm);
         let fifo = rng.pm(p.fifo_pm);
         let mix_modes = rng.pm(p.mix_modes_pm);
         let delay_across_partition = rng.pm(500);
@@ -325,6 +349,10 @@ impl<'a> Driver<'a> {
             next_id: 1,
             drop_pm,
             dup_pm,
+            adversary,
+            conf_heavy,
+            shield: BTreeMap::new(),
+            muted: BTreeMap::new(),
             fifo,
             link_last: BTreeMap::new(),
             mix_modes,
@@ -430,6 +458,24 @@ impl<'a> Driver<'a> {
                 lat = at - self.now;
                 self.link_last.insert((k.f, k.t), at);
             }
+            if self.adversary && mtype == Some(MessageType::MsgRequestVote) && !matches!(a, Action::Dup { .. }) && self.rng.pm(400) {
+                // election adversary: this vote request is slow (the candidate records the first answer of a
+                // voter only, so a late original matters more than a late copy)
+                lat = self.rng.range(30, 600) * MS;
+                self.fault("adversary_slow_vote_request");
+            }
+            if self.adversary && mtype == Some(MessageType::MsgRequestVote) && !matches!(a, Action::Dup { .. }) && self.rng.pm(300) {
+                // election adversary: a copy of the vote request that arrives late (after the voter may have
+                // crashed, campaigned itself, ...)
+                self.trace.push(Action::Dup { k });
+                let _ = self.world.apply(&Action::Dup { k });
+                self.fault("adversary_late_vote_request_copy");
+                let k2s: Vec<MsgKey> = self.world.released.clone();
+                for k2 in k2s {
+                    let l2 = self.rng.range(30, 600) * MS;
+                    self.push(l2, Ev::Deliver(k2));
+                }
+            }
             if self.rng.pm(self.dup_pm) && !matches!(a, Action::Dup { .. }) {
                 // a Dup action is issued when the original is delivered-scheduled; do it now
                 self.trace.push(Action::Dup { k });
@@ -489,7 +535,10 @@ impl<'a> Driver<'a> {
         }
         if applyq && !nd.apply_pending {
             nd.apply_pending = true;
-            let d = if slow { self.rng.range(5, 200) * MS } else { self.rng.range(100, 3000) };
+            let mut d = if slow { self.rng.range(5, 200) * MS } else { self.rng.range(100, 3000) };
+            if nd.slow_apply {
+                d *= 30;
+            }
             pushes.push((d, Ev::ApplyEv(n)));
         }
         for (d, e) in pushes {
@@ -547,6 +596,9 @@ impl<'a> Driver<'a> {
                 self.push(d, Ev::Start(id));
             }
         }
+        if self.adversary {
+            self.adversary_watch();
+        }
         // biased faults: arm when something interesting just happened
         let leaders = *self.world.stats.get("leaders_elected").unwrap_or(&0);
         let confs = *self.world.stats.get("conf_changes_applied").unwrap_or(&0);
@@ -563,6 +615,53 @@ impl<'a> Driver<'a> {
         self.last_leader_count = leaders;
         self.last_conf_applied = confs;
         self.last_snapshots = snaps;
+    }
+
+    /// Election adversary: a node that is Candidate of a term which already has (had) a leader or another candidate
+    /// is shielded for a while: only vote responses reach it and its clock stalls, so it stays a candidate of
+    /// that term. Legal (slow node, delayed messages); fruitless unless some voter grants a second vote.
+    fn adversary_watch(&mut self) {
+        let mut cands: Vec<(NodeId, u64)> = Vec::new();
+        for (id, x) in &self.world.nodes {
+            if x.running() && x.obs.role == StateRole::Candidate {
+                cands.push((*id, x.obs.term));
+            }
+        }
+        let now = self.now;
+        self.shield.retain(|id, (t, until)| *until > now && cands.contains(&(*id, *t)));
+        for (y, t) in cands {
+            if self.shield.contains_key(&y) {
+                continue;
+            }
+            let contested = self.world.ghost.leader_of.get(&t).map(|l| *l != y).unwrap_or(false)
+                || self.world.nodes.iter().any(|(id, x)| *id != y && x.running() && x.obs.term == t && matches!(x.obs.role, StateRole::Leader | StateRole::Candidate));
+            if contested && self.rng.pm(600) {
+                let until = self.now + self.rng.range(100, 900) * MS;
+                self.shield.insert(y, (t, until));
+                self.fault("adversary_shielded_candidate");
+                if let Some(l) = self.world.ghost.leader_of.get(&t).cloned() {
+                    if l != y && self.rng.pm(500) {
+                        // the winner's first messages are slow: its voters time out and campaign
+                        self.muted.insert(l, until);
+                        self.fault("adversary_muted_leader");
+                    }
+                }
+            }
+        }
+    }
+
+    fn shielded(&self, n: NodeId) -> Option<u64> {
+        match self.shield.get(&n) {
+            Some((t, until)) if *until > self.now => {
+                let x = &self.world.nodes[&n];
+                if x.running() && x.obs.role == StateRole::Candidate && x.obs.term == *t {
+                    Some(*until)
+                } else {
+                    None
+                }
+            }
+            _ => None,
+        }
     }
 
     fn round_mode(&mut self, n: NodeId) -> Mode {
@@ -635,7 +734,8 @@ impl<'a> Driver<'a> {
 
     fn client_op(&mut self) -> Result<(), Violation> {
         let p = self.p;
-        let ws = [p.w_propose, p.w_conf, p.w_read, p.w_transfer, p.w_compact, p.w_knob, p.w_reqsnap, p.w_storage_fault, p.w_misc, p.w_bogus];
+        let w_conf = if self.conf_heavy { p.w_conf * 5 } else { p.w_conf };
+        let ws = [p.w_propose, w_conf, p.w_read, p.w_transfer, p.w_compact, p.w_knob, p.w_reqsnap, p.w_storage_fault, p.w_misc, p.w_bogus];
         let mut which = self.rng.weighted(&ws);
         if self.calm && (which == 1 || which == 3) {
             which = 0; // the lock-step scenario excludes membership changes and requested transfers
@@ -668,6 +768,10 @@ impl<'a> Driver<'a> {
                         a
                     };
                     self.act(a)?;
+                    if self.rng.pm(if self.conf_heavy { 500 } else { self.p.conf_burst_pm }) {
+                        let d = self.rng.range(2, 60) * MS;
+                        self.push(d, Ev::ConfFollowUp(n));
+                    }
                 }
             }
             2 => {
@@ -707,7 +811,11 @@ impl<'a> Driver<'a> {
                         8 => Knob::FreeInflightBuffers,
                         9 => {
                             if self.rng.pm(self.p.group_commit_pm.max(100)) {
-                                Knob::AssignGroup { peer, group: self.rng.range(1, 3) }
+                                if self.rng.pm(500) {
+                                    Knob::AssignAllGroups { seed: self.rng.next_u64(), k: self.rng.range(1, 3) }
+                                } else {
+                                    Knob::AssignGroup { peer, group: self.rng.range(1, 3) }
+                                }
                             } else {
                                 Knob::FreeInflightBuffers
                             }
@@ -922,6 +1030,9 @@ impl<'a> Driver<'a> {
         self.blocked.clear();
         self.drop_pm = 0;
         self.dup_pm = 0;
+        self.adversary = false;
+        self.shield.clear();
+        self.muted.clear();
         let ids: Vec<NodeId> = self.world.nodes.keys().cloned().collect();
         for n in &ids {
             if self.world.nodes[n].started && !self.world.nodes[n].running() && !self.world.nodes[n].decommissioned {
@@ -1032,7 +1143,11 @@ impl<'a> Driver<'a> {
                     return Ok(());
                 }
                 self.push(period, Ev::Tick(n));
-                if !down && !stalled {
+                let shielded = self.shielded(n).is_some();
+                if shielded {
+                    self.fault("adversary_clock_stall");
+                }
+                if !down && !stalled && !shielded {
                     self.act(Action::Tick { n })?;
                 }
             }
@@ -1041,6 +1156,29 @@ impl<'a> Driver<'a> {
                     return Ok(());
                 }
                 let is_snap = self.world.flights.get(&k).map(|f| f.msg.get_msg_type() == MessageType::MsgSnapshot).unwrap_or(false);
+                if let Some(until) = self.shielded(k.t) {
+                    let is_vote_resp = self
+                        .world
+                        .flights
+                        .get(&k)
+                        .map(|f| matches!(f.msg.get_msg_type(), MessageType::MsgRequestVoteResponse | MessageType::MsgRequestPreVote))
+                        .unwrap_or(false);
+                    if !is_vote_resp {
+                        let d = until - self.now + self.rng.range(1, 20) * MS;
+                        self.push(d, Ev::Deliver(k));
+                        self.fault("delayed_by_adversary");
+                        return Ok(());
+                    }
+                }
+                if let Some(until) = self.muted.get(&k.f).cloned() {
+                    if until > self.now {
+                        let d = until - self.now + self.rng.range(1, 20) * MS;
+                        self.push(d, Ev::Deliver(k));
+                        self.fault("delayed_by_adversary");
+                        return Ok(());
+                    }
+                    self.muted.remove(&k.f);
+                }
                 if self.blocked.contains(&(k.f, k.t)) {
                     if self.delay_across_partition && self.rng.pm(700) {
                         let d = self.rng.range(20, 800) * MS;
@@ -1115,6 +1253,13 @@ impl<'a> Driver<'a> {
                     self.act(Action::Compact { n, back })?;
                 }
                 self.schedule_node_work(n);
+            }
+            Ev::ConfFollowUp(n) => {
+                if !self.calm && self.world.nodes.get(&n).map(|x| x.running()).unwrap_or(false) {
+                    let a = self.gen_conf_change(n);
+                    self.fault("membership_change_burst");
+                    self.act(a)?;
+                }
             }
             Ev::Client => {
                 let d = self.rng.range(self.p.client_interval.0, self.p.client_interval.1) * MS;
